@@ -306,15 +306,15 @@ def judge_metric(inp, obs, lr):
 
 CLAUSES = [
     Clause("coords_corr", "corr", gen_coords, run_coords, judge_coords, lean=lean_coords2,
-           site="hyperbolic.Point.coords", budget={"quick": 150, "thorough": 4000},
+           site="hyperbolic.Point.coords", budget={"quick": 150, "thorough": 20000},
            what="Point(d, model=m1).coords(m2) for all m2 vs Lean setX/getX executed over ℚ (rational Poincaré points, ideal points, composite shapes)"),
     Clause("dist_corr", "corr", gen_dist, run_dist, judge_dist, lean=lean_dist,
-           site="hyperbolic.Point.distance", budget={"quick": 200, "thorough": 5000},
+           site="hyperbolic.Point.distance", budget={"quick": 200, "thorough": 20000},
            what="cosh(Point.distance) vs Lean coshDistClamped over ℚ, incl. d(x,x) and rescaled representatives of either sign"),
     Clause("roundtrip_oracle", "oracle", gen_rt, run_rt, judge_rt, site="hyperbolic.Point.coords",
-           budget={"quick": 60, "thorough": 1500},
+           budget={"quick": 60, "thorough": 8000},
            what="float points: coords(m1) -> Point(.,m1) -> coords(m2) -> Point(.,m2) -> klein, all 25 ordered pairs, dims 1-5, shapes rank 0-3"),
     Clause("metric_oracle", "oracle", gen_metric, run_metric, judge_metric, site="hyperbolic.Point.distance",
-           budget={"quick": 300, "thorough": 10000},
+           budget={"quick": 300, "thorough": 60000},
            what="metric laws (finite, >=0, d(x,x)=0, symmetry, triangle), closed-form metrics of each model, composite = per unit"),
 ]
